@@ -101,6 +101,34 @@ func rootOf(v ssa.Value, depth int) ssa.Value {
 	return v
 }
 
+func inTranslatorPkg(p *Program, path string) bool {
+	for _, t := range translatorPkgs {
+		if path == t {
+			return true
+		}
+	}
+	return false
+}
+
+// isRefType: a value through which the callee can reach (and write) the caller's storage
+func isRefType(t types.Type) bool {
+	switch under(t).(type) {
+	case *types.Pointer, *types.Map, *types.Slice, *types.Chan:
+		return true
+	}
+	return false
+}
+
+// readOnlyCallee: library functions known not to write through their receiver or arguments
+func readOnlyCallee(name string) bool {
+	for _, p := range []string{"(*regexp.Regexp).", "fmt.", "strings.", "(*go/token.FileSet).Position", "len", "cap"} {
+		if strings.HasPrefix(name, p) {
+			return true
+		}
+	}
+	return false
+}
+
 func sharedInputType(t types.Type) bool {
 	k := typeKey(types.Unalias(t))
 	k = strings.TrimLeft(k, "*[]")
@@ -173,6 +201,7 @@ func c06Extra(pc *propCheck) {
 	sort.Strings(names)
 	var globalWrites, sharedWrites, impure, mapRanges []string
 	nStores := 0
+	globalRefs := 0
 	for _, name := range names {
 		fn := p.fns[name]
 		if fn == nil {
@@ -204,6 +233,27 @@ func c06Extra(pc *propCheck) {
 					}
 				case ssa.CallInstruction:
 					c := x.Common()
+					// a package-level variable handed to a call by reference (receiver or argument):
+					// the callee can write it, so the site must be one of the known read-only uses
+					for ai, a := range c.Args {
+						if !isRefType(a.Type()) {
+							continue
+						}
+						g, ok := rootOf(a, 0).(*ssa.Global)
+						if !ok || g.Pkg == nil || !inTranslatorPkg(p, g.Pkg.Pkg.Path()) {
+							continue
+						}
+						globalRefs++
+						callee := "(dynamic)"
+						if f := c.StaticCallee(); f != nil {
+							callee = f.String()
+						} else if c.IsInvoke() {
+							callee = c.Method.FullName()
+						}
+						if !readOnlyCallee(callee) {
+							globalWrites = append(globalWrites, fmt.Sprintf("%s: package-level variable %s passed by reference (argument %d) to %s", short, g.Name(), ai, callee))
+						}
+					}
 					if f := c.StaticCallee(); f != nil && f.Pkg != nil {
 						switch f.Pkg.Pkg.Path() {
 						case "time", "math/rand", "math/rand/v2", "crypto/rand":
@@ -226,7 +276,7 @@ func c06Extra(pc *propCheck) {
 			}
 		}
 	}
-	add("translator/scan[no write to package-level variables]", len(globalWrites) == 0, fmt.Sprintf("%d stores and map updates scanned; offending: %v", nStores, globalWrites))
+	add("translator/scan[no write to package-level variables]", len(globalWrites) == 0, fmt.Sprintf("%d stores and map updates and %d by-reference uses of package-level variables in calls scanned; offending: %v", nStores, globalRefs, globalWrites))
 	// stores into structures of shared input types are decided by `fresh-write` obligations (the
 	// written object must have been allocated by the activation); here only: each such site is covered
 	nFresh := 0
